@@ -478,6 +478,9 @@ enum Img {
     Trunc(usize),
     /// byte at this offset one up (true) / one down (false)
     Step(usize, bool),
+    /// the little-endian u32 at this offset set to this (small) value and the image cut at its
+    /// end by the difference: a length field that is consistent with a shortened last block
+    TrimFix(usize, u32),
     Mut([u64; 4]),
 }
 
@@ -596,7 +599,22 @@ fn plan(src: &mut zsim_core::Source, fam: &Family, scratch: &Rc<Scratch>) -> Res
             cases.push(CaseSpec { desc: format!("{}@{}", if up { "inc" } else { "dec" }, pos), kind: K_STEP, img: Img::Step(pos, up), len: lens[0].0, lab: lens[0].1 });
         }
     }
-    let n_step = 2 * hdr;
+    let mut n_step = 2 * hdr;
+    // (2c) a length field made consistent with a shortened tail: each 4-aligned u32 among the first
+    //      24 bytes that could be the size of the last block is set to 1 and to 3, and the image loses
+    //      that many bytes at its end (sums of sizes still match the total length exactly)
+    for off in (0..24usize).step_by(4) {
+        if off + 4 > n {
+            break;
+        }
+        let old = u32::from_le_bytes([p.bytes[off], p.bytes[off + 1], p.bytes[off + 2], p.bytes[off + 3]]);
+        for t in [1u32, 3] {
+            if old > t && ((old - t) as usize) < n - (off + 4) {
+                cases.push(CaseSpec { desc: format!("trimfix{}@{}", t, off), kind: K_STEP, img: Img::TrimFix(off, t), len: lens[0].0, lab: lens[0].1 });
+                n_step += 1;
+            }
+        }
+    }
     // (3) seeded damaged copies
     let mut ops = src.ops("ops", fam.ops);
     let mut n_ops = 0;
@@ -618,6 +636,15 @@ fn image(p: &Prepared, img: &Img) -> Vec<u8> {
         Img::Step(pos, up) => {
             let mut v = p.bytes.clone();
             v[*pos] = if *up { v[*pos].wrapping_add(1) } else { v[*pos].wrapping_sub(1) };
+            v
+        }
+        Img::TrimFix(off, t) => {
+            let mut v = p.bytes.clone();
+            let old = u32::from_le_bytes([v[*off], v[*off + 1], v[*off + 2], v[*off + 3]]);
+            let cut = (old - *t) as usize;
+            let n = v.len();
+            v.truncate(n - cut);
+            v[*off..*off + 4].copy_from_slice(&t.to_le_bytes());
             v
         }
         Img::Mut(op) => mutate(&p.bytes, *op).0,
@@ -1009,9 +1036,9 @@ fn engine(cx: &mut Run, fam: &Family) {
         }
         if i + 1 == n_lens + pl.n_trunc + pl.n_step && pl.n_step > 0 {
             if p.stable {
-                cx.ev(format!("header bytes one up / one down: {} cases (first {} bytes): ok={} err={} crashed={}", pl.n_step, pl.n_step / 2, s_ok, s_err, s_bad));
+                cx.ev(format!("header bytes one up / one down and trimmed length fields: {} cases: ok={} err={} crashed={}", pl.n_step, s_ok, s_err, s_bad));
             } else {
-                cx.ev(format!("header bytes one up / one down: {} cases (first {} bytes): no-crash={} crashed={}", pl.n_step, pl.n_step / 2, s_ok + s_err, s_bad));
+                cx.ev(format!("header bytes one up / one down and trimmed length fields: {} cases: no-crash={} crashed={}", pl.n_step, s_ok + s_err, s_bad));
             }
             cx.cell(format!("{}/hdrstep/{}", p.target, if s_bad > 0 { "crashed" } else if s_ok > 0 && s_err > 0 { "mixed" } else { "clean" }));
         }
